@@ -43,6 +43,9 @@ func (e *Entrypoint) Validate() error {
 	if strings.Contains(e.Name, "_") {
 		return ErrUnderlineInEntrypointName
 	}
+	if !isKeyComponent(e.Name) {
+		return ErrInvalidEntrypointName
+	}
 	return nil
 }
 
